@@ -525,7 +525,7 @@ def _build_ops():
     _op("font.bold", "run", "bold", V_BOOL, pre=(None, True))
     _op("font.italic", "run", "italic", V_BOOL)
     _op("font.underline", "run", "underline", [True, False, None] + _all_members("text", "MSO_TEXT_UNDERLINE_TYPE")
-        + V_ENUMX, metric="skip", pre=(None, True))
+        + V_ENUMX, metric="underline", pre=(None, True))
     _op("font.name", "run", "name", ["Arial", "", "é x", None, 5, 1.5, True, b"Arial", "a\x00b"], pre=(None, "Calibri"))
     _op("font.language_id", "run", "language_id",
         _members("lang", "MSO_LANGUAGE_ID", ["NONE", "ENGLISH_US", "GERMAN", "FRENCH", "JAPANESE", "MIXED"]) + V_ENUMX,
@@ -842,7 +842,16 @@ def _api_same(metric, v, back):
     try:
         if metric == "truthy":
             return bool(back) == bool(v)
+        if metric == "underline":
+            # Font.underline docstring: True / False stand for SINGLE_LINE / NONE and are what those two read as
+            name = getattr(v, "name", None)
+            if name is None and not isinstance(v, bool):
+                return back == v   # a plain integer that the enumeration accepts: any equal reading will do
+            exp = True if (v is True or name == "SINGLE_LINE") else False if (v is False or name == "NONE") else v
+            return type(back) is type(exp) and back == exp
         if metric == "exact":
+            if hasattr(v, "xml_value") and hasattr(back, "xml_value") and type(back) is not type(v):
+                return False   # a member of another enumeration that happens to have the same integer value
             if back == v:
                 return True
             if isinstance(v, (int, float)) and isinstance(back, (int, float)):
